@@ -5,5 +5,7 @@ sys.path.insert(0, os.path.dirname(os.path.abspath(__file__)))
 import build
 try:
     print("built", build.build_zv())
+    print("built", build.build_featdrv())
+    print("built", build.build_cli())
 except build.BuildError as e:
     print(e); sys.exit(1)
